@@ -107,7 +107,8 @@ def _build(desc, ctx):
         return Rule.parse_annotation(annotation=ann, constraints=_cons_attrs(desc) or None)
     if k == "enum":
         base = P[desc["base"]] if desc.get("base") else None
-        members = [(n, v) for n, v in desc["members"]]
+        kinds = desc.get("kinds") or [None] * len(desc["members"])
+        members = [(n, _member_value(v, kd)) for (n, v), kd in zip(desc["members"], kinds)]
         return enum.Enum(desc["name"], members, type=base) if base else enum.Enum(desc["name"], members)
     if k == "logic":
         sym = {"allOf": "&", "anyOf": "|", "oneOf": "^"}[desc["op"]]
@@ -129,6 +130,8 @@ def _build(desc, ctx):
         for a in ("ignore_required", "no_default", "defer_default"):
             if o.get(a):
                 kw[a] = True
+        if o.get("invalid_values"):
+            kw["invalid_values"] = o["invalid_values"]
         ns = {"__module__": __name__, "__qualname__": desc["name"], "__annotations__": {}}
         if kw:
             ns["__options__"] = Options(**kw)
@@ -176,6 +179,52 @@ def _build(desc, ctx):
             ctx["classes"][desc["uid"]] = cls
         return cls
     raise ValueError(f"unknown descriptor kind {k}")
+
+
+def _member_value(v, kind):
+    """the Python value of an Enum member whose published (JSON) form is `v`"""
+    import datetime as dt
+    import uuid
+    if kind == "date":
+        return dt.date.fromisoformat(v)
+    if kind == "uuid":
+        return uuid.UUID(v)
+    if kind == "bytes":
+        return v.encode()
+    if kind == "decimal":
+        return Decimal(str(v))
+    return v
+
+
+def _publish_members(doc):
+    """Enum member values are put into the document as they are (generator.py: `enum_values.append(val.value)`); a
+    member that is a date / UUID / bytes / Decimal is published by the library's own encoder, like the value itself
+    (interpretive decision, design.d/C13.md).  Everything else must be JSON as it stands."""
+    from utype.utils.encode import JSONEncoder
+
+    def enc(v):
+        try:
+            json.dumps(v)
+            return v
+        except Exception:
+            try:
+                return json.loads(json.dumps(v, cls=JSONEncoder))
+            except Exception:
+                return v
+
+    if isinstance(doc, dict):
+        out = {}
+        for k, v in doc.items():
+            if k == "enum" and isinstance(v, list):
+                out[k] = [enc(x) for x in v]
+            elif k == "x-annotation" and isinstance(v, dict) and isinstance(v.get("enums"), dict):
+                out[k] = dict(v, enums={n: enc(x) for n, x in v["enums"].items()})
+            else:
+                out[k] = _publish_members(v)
+        return out
+    if isinstance(doc, list):
+        return [_publish_members(x) for x in doc]
+    return doc
 
 
 def _num_exact(d: Decimal):
@@ -308,8 +357,12 @@ def _observed(inst, name, attname):
 
 def _probe(T, desc, options):
     """the parser's treatment of every field name, of absence, and of unknown keys"""
-    from utype import exc
+    from utype import exc, Options
     fields = desc["fields"]
+    if desc["opts"].get("invalid_values") == "exclude":
+        # which names take input / whose absence is an error does not depend on what happens to an INVALID value;
+        # probe under `throw` so that a probe value the type refuses shows as an error instead of silently vanishing
+        options = (options or T.__options__) & Options(invalid_values="throw")
 
     def names_of(f):
         name = f.get("alias") or f["attname"]
@@ -374,10 +427,15 @@ def _probe(T, desc, options):
         else:
             got = dict.__getitem__(r, unk)
             res.append("kept" if (type(got) is str and got == val) else "converted")
-    if res[0] == res[1] and res[0] in ("rejected", "dropped", "kept"):
+    if res[0] == res[1] == "dropped" and desc["opts"].get("invalid_values") == "exclude" \
+            and desc["opts"].get("addition") == "convert":
+        unknown = "unclear:both probe values excluded as unconvertible"
+    elif res[0] == res[1] and res[0] in ("rejected", "dropped", "kept"):
         unknown = res[0]
     elif res[0] in ("converted", "kept") and (res[1].startswith("error:") or res[1] == "converted"):
         unknown = "converted"
+    elif res[0] == "converted" and res[1] == "dropped" and desc["opts"].get("invalid_values") == "exclude":
+        unknown = "converted"       # the unconvertible addition is excluded instead of raising
     else:
         unknown = "unclear:" + "/".join(res)
     e, _ = run(base)
@@ -397,6 +455,7 @@ def _gen_doc(T, gm, output, defs=None, names=None):
             doc["$defs"] = gen.get_defs()
     except BaseException as e:
         return {"exc": type(e).__name__}
+    doc = _publish_members(doc)
     try:
         json.dumps(doc)
         ok = True
@@ -469,7 +528,7 @@ def impl(case):
         for view in ("in", "out"):
             d, n = regs[view]
             try:
-                final = _jsonable(JsonSchemaGenerator(None, defs=d, names=n).get_defs())
+                final = _jsonable(_publish_members(JsonSchemaGenerator(None, defs=d, names=n).get_defs()))
             except BaseException as e:
                 final = {"__nonjson__": type(e).__name__}
             for res in steps:
@@ -725,6 +784,14 @@ def gen_enum(rng):
         # members of different types (class E(Enum): A = 1; B = 'a')
         vals = rng.choice([[1, "a"], ["x", 2, 3], [2.5, "on"], [4, None], [7, 0.5, "zz"]])
         base = None
+        if rng.random() < 0.5:
+            # … and of different types that share one JSON primitive (str + date / UUID / bytes, float + Decimal)
+            typed = rng.choice([[("x", "str"), ("2020-01-02", "date")], [("on", "str"), ("ab", "bytes"), (3, "int")],
+                                [("12345678-1234-5678-1234-567812345678", "uuid"), ("y", "str")],
+                                [(2.5, "float"), (1.5, "decimal")], [(0.5, "decimal"), (2.25, "float"), ("zz", "str")],
+                                [("1999-12-31", "date"), ("cd", "bytes"), ("k", "str")]])
+            return {"k": "enum", "name": name, "base": None, "members": [[chr(65 + i), v] for i, (v, _) in enumerate(typed)],
+                    "kinds": [kd for _, kd in typed]}
     return {"k": "enum", "name": name, "base": base, "members": [[chr(65 + i), v] for i, v in enumerate(vals)],
             "kinds": [_kind(v) for v in vals]}
 
@@ -998,6 +1065,11 @@ def gen_data(rng, depth=1, nested=False, cls_mode="rand", pool=None, name=None):
     opts = {"mode": mode, "addition": rng.choice(["drop", "drop", "reject", "keep", "convert"]),
             "ignore_required": rng.random() < 0.1, "no_default": rng.random() < 0.1,
             "defer_default": rng.random() < 0.08}
+    if rng.random() < 0.2:
+        # a value that cannot be converted is dropped (its default applies) instead of raising — unless the field is
+        # required in this mode.  The generator does not read the option; the output contract must hold all the same.
+        # ('preserve' keeps the raw value by design and is not generated.)
+        opts["invalid_values"] = "exclude"
     fields = [gen_field(rng, ATT[i], depth, mode, pool) for i in range(n)]
     # Field(deprecated='<name of the field that replaces it>')
     if len(fields) >= 2 and rng.random() < 0.2:
@@ -1085,8 +1157,9 @@ def _samples(t, rng, n=2):
         merged = {"k": "scalar", "p": t["base"]["p"], "cons": {**t["base"]["cons"], **t["cons"]}}
         return _samples(merged, rng, n)
     if k == "enum":
-        vals = [m[1] for m in t["members"]]
-        return [vals[i % len(vals)] for i in range(n)]
+        kinds = t.get("kinds") or ["str"] * len(t["members"])
+        vals = [m[1] for m, kd in zip(t["members"], kinds) if kd in ("int", "float", "str", "bool", "null")]
+        return [vals[i % len(vals)] for i in range(n)] if vals else []
     if k == "seq":
         its = samples(t["item"], rng, 3)
         if not its:
@@ -1191,15 +1264,24 @@ def attach_samples(t, rng):
     return ok
 
 
+def object_like(x):
+    """a damaged value of the same JSON kind that most element/field types refuse"""
+    if isinstance(x, list):
+        return [{"zz": []}] + x
+    if isinstance(x, dict):
+        return {**x, "zz_bad": {"zz": []}}
+    return x + "\u0000zz"
+
+
 def variants(v, rng):
     """other spellings of a raw input (strings for numbers, floats for ints, …) and damaged versions"""
     out = []
     if isinstance(v, bool):
         out += [str(v).lower(), int(v)]
     elif isinstance(v, int):
-        out += [str(v), float(v), v + 1, -v, v * 1000003, 0, "0", "-0", "0.00"]
+        out += [str(v), float(v), v + 1, -v, v * 1000003, 0, "0", "-0", "0.00", "zz", {"zz": []}]
     elif isinstance(v, float):
-        out += [str(v), v + 0.5, int(v), 0.0, -0.0, 0, "0.0", "-0.00"]
+        out += [str(v), v + 0.5, int(v), 0.0, -0.0, 0, "0.0", "-0.00", "zz", {"zz": []}]
     elif isinstance(v, str):
         out += [v + "z", v.upper(), v[:1], 7]
         if re.fullmatch(r"-?\d+(\.\d+)?", v):
@@ -1219,6 +1301,9 @@ def variants(v, rng):
             if vs:
                 d[kk] = rng.choice(vs)
                 out.append(d)
+            for kk in ks:
+                # every field in turn given something no converter takes
+                out.append({**v, kk: {"zz": []}} if not isinstance(v[kk], (dict, list, str)) else {**v, kk: object_like(v[kk])})
         out.append({**v, "extra_key": "12"})
         out.append({**v, "extra_key": "zz"})
     elif v is None:
@@ -1356,7 +1441,12 @@ def gen_case(rng, top=None):
             vs = variants(b, rng)
             rng.shuffle(vs)
             ins += vs[:3]
-        case = {"ty": t, "genMode": None, "inputs": ins[:10]}
+        ins = ins[:10]
+        if isinstance(base[0], dict) and base[0]:
+            # one field at a time given a value its type cannot take (raises, or is dropped under `exclude`)
+            for kk in rng.sample(sorted(base[0]), min(2, len(base[0]))):
+                ins.append({**base[0], kk: {"zz": []}})
+        case = {"ty": t, "genMode": None, "inputs": ins}
         if t["k"] == "data":
             if rng.random() < 0.25:
                 case["genMode"] = rng.choice(["r", "w", "a"])
@@ -1434,7 +1524,7 @@ def gen_schema(rng, depth=2, defs=None):
 
 
 BAD_SCHEMA_MUTATIONS = [
-    ("type", "strange"), ("type", 3), ("type", ["integer", "integer"]), ("multipleOf", 0), ("multipleOf", -2), ("minLength", -1),
+    ("type", "strange"), ("type", 3), ("type", ["integer", "integer"]), ("type", []), ("type", ["string", "number", "string"]), ("multipleOf", 0), ("multipleOf", -2), ("minLength", -1),
     ("maxItems", 1.5), ("required", ["a", "a"]), ("required", "a"), ("properties", []), ("items", 3), ("allOf", []),
     ("anyOf", {}), ("uniqueItems", 1), ("pattern", 3), ("enum", 3), ("minimum", "1"), ("dependentRequired", {"a": "b"}),
     ("prefixItems", []), ("not", []), ("additionalProperties", "yes"), ("$ref", 3), ("title", 3), ("deprecated", "yes"),
